@@ -232,7 +232,21 @@ def main():
         opi = parts[2] if len(parts) > 2 else "?"
         kind = op_kind(work, name, cid, opi)
         if relevant_kinds is not None and kind is not None and kind.split(":")[0] not in relevant_kinds:
-            notes.append("correspondence mismatch on a %s operation (not used by this property's theorems): %s %s" % (kind, name, cid))
+            # the comparison of a history stops at its first disagreement: when operations this
+            # property's theorems speak about come later in the same history, they were not compared,
+            # so the tie between model and code is no longer shown for them
+            later = later_kinds(work, name, cid, opi)
+            cut = sorted(set(k for k in later if k in relevant_kinds))
+            if not cut:
+                notes.append("correspondence mismatch on a %s operation (not used by this property's theorems, none of which follows in that history): %s %s" % (kind, name, cid))
+                continue
+            godig = go_digest(work, name, cid, opi)
+            path = replay_file("mismatch_upstream_%s_%s" % (name, cid),
+                               "Correspondence obligation broken upstream: model and implementation disagree on a %s operation, and the %s operation(s) that follow in this history could not be compared.\n"
+                               "suite shard %s, case %s, operation #%s\nmodel: %s\nimplementation: %s\n\ncase:\n%s\n" %
+                               (kind, "/".join(cut), name, cid, opi, line, godig, extract_case(work, name, cid)))
+            violations.append(("mismatch-upstream:" + kind.split(":")[0], path, False,
+                               "model and implementation disagree on case %s op %s (%s), before its %s operation(s) could be compared" % (cid, opi, kind, "/".join(cut))))
             continue
         godig = go_digest(work, name, cid, opi)
         case_text = extract_case(work, name, cid)
@@ -376,6 +390,27 @@ def go_digest(work, name, cid, opi):
             if line.startswith(pref):
                 return line.strip()
     return "(no digest)"
+
+
+def later_kinds(work, name, cid, opi):
+    """kinds of the operations that follow operation opi in the history cid"""
+    path = os.path.join(work, name + ".digests")
+    out = []
+    try:
+        k0 = int(opi)
+    except ValueError:
+        return out
+    if os.path.exists(path):
+        pref = cid + " "
+        for line in open(path):
+            if line.startswith(pref):
+                parts = line.split(" ")
+                try:
+                    if int(parts[1]) > k0 and len(parts) > 2:
+                        out.append(parts[2].split(":")[0])
+                except ValueError:
+                    pass
+    return out
 
 
 def op_kind(work, name, cid, opi):
